@@ -347,6 +347,7 @@ func (c *Cache) writeDump(w io.Writer) (int, error) {
 	gw.Name = dumpHeader
 
 	block := new(CacheDumpBlock)
+	blockLen := 0 // upper bound of the encoded length of block
 	writeBlock := func() error {
 		b, err := proto.Marshal(block)
 		if err != nil {
@@ -366,6 +367,7 @@ func (c *Cache) writeDump(w io.Writer) (int, error) {
 
 		en += len(block.GetEntries())
 		block.Reset()
+		blockLen = 0
 		return nil
 	}
 
@@ -385,7 +387,17 @@ func (c *Cache) writeDump(w io.Writer) (int, error) {
 			MsgStoredTime:       v.storedTime.Unix(),
 			Msg:                 msg,
 		}
+
+		// readDump refuses blocks longer than dumpMaximumBlockLength.
+		// Start a new block if this entry would make the block too long.
+		el := proto.Size(e) + 16 // entry + its tag and length prefix
+		if len(block.Entries) > 0 && blockLen+el > dumpMaximumBlockLength {
+			if err := writeBlock(); err != nil {
+				return err
+			}
+		}
 		block.Entries = append(block.Entries, e)
+		blockLen += el
 
 		// Block is big enough for a write operation.
 		if len(block.Entries) >= dumpBlockSize {
